@@ -39,6 +39,9 @@ func who(point string) string {
 }
 
 func (g *StopGate) hit(point string) {
+	if point == "handle.block" || point == "handle.tx" {
+		return // scheduling points of the ledger traces (ledgertrace.go); Stop.tla has no action for them
+	}
 	if g.rec != nil {
 		g.rec.log(point, "", "")
 		return
